@@ -32,7 +32,15 @@ func init() {
 			{Name: "result-depends-on-map-order", File: "pkg/slot/fsm/statemachine.go",
 				Old:    "\tstarted := time.Now()\n\terr := wb.Commit()\n",
 				New:    "\tfor hs, st := range pendingMigrationStates {\n\t\tresults[0] = []byte(fmt.Sprint(hs, st.Phase))\n\t}\n\tstarted := time.Now()\n\terr := wb.Commit()\n",
-				Expect: "C13/R1-determ/maprange:*"},
+				Expect: "C13/R1-determ/maprange*"},
+			{Name: "benign-counting-map-range", File: "pkg/slot/fsm/statemachine.go",
+				Old:    "\tstarted := time.Now()\n\terr := wb.Commit()\n",
+				New:    "\tpendingCount := 0\n\tfor _, st := range pendingMigrationStates {\n\t\tif st.Phase != 0 {\n\t\t\tpendingCount++\n\t\t}\n\t}\n\t_ = pendingCount\n\tstarted := time.Now()\n\terr := wb.Commit()\n",
+				Expect: "!silent"},
+			{Name: "third-order-sensitive-range-in-triaged-closure", File: "pkg/db/meta/batch.go",
+				Old:    "\t\t\tb.closed = true\n\t\t\treturn nil\n\t\t},\n\t\tFinalize: unlock,",
+				New:    "\t\t\tfor cacheKey := range state.channelDeletes {\n\t\t\t\tb.db.forgetChannel([]byte(cacheKey))\n\t\t\t\tbreak\n\t\t\t}\n\t\t\tb.closed = true\n\t\t\treturn nil\n\t\t},\n\t\tFinalize: unlock,",
+				Expect: "C13/R1-determ/maprange-table:*Commit$2"},
 			{Name: "unregistered-command-type", File: "pkg/slot/fsm/command.go",
 				Old:    "\tcmdTypeUnbindPluginUser                    uint8 = 43\n",
 				New:    "\tcmdTypeUnbindPluginUser                    uint8 = 43\n\tcmdTypeRenameUser                          uint8 = 66\n",
